@@ -70,7 +70,8 @@ RULE = (f"fault enumeration: runs 0..{NENUM - 1} enumerate every stall point - a
         f"signature); non-trivial = a stall, a boundary race or a slow handler was present")
 PROBES = ["stall_in_handshake", "stall_in_request_line", "stall_in_titan_content",
           "complete_request_no_timeout", "late_data_at_boundary", "slow_handler_5T",
-          "slow_middleware", "dribble", "disconnect_near_deadline", "timeout_40_observed", "via_start_server"]
+          "slow_middleware", "dribble", "stall_after_large_declared_size",
+          "request_as_several_records_in_one_flight", "disconnect_near_deadline", "timeout_40_observed", "via_start_server"]
 COMPONENTS = {
     "real": ["nauyaca.server.protocol (request timer)", "nauyaca.server.tls_protocol (handshake "
              "phase)", "asyncio sslproto handshake/shutdown timers", "OpenSSL"],
@@ -127,7 +128,7 @@ def run_one(ch):
         mode = sw.MODES[ch.choose("mode", 3)]
         s = ch.choose("shape", 4)
         name, stream = SHAPES[s]
-        r = ch.choose("scen", 6, [4, 3, 2, 2, 2, 2])
+        r = ch.choose("scen", 8, [4, 3, 2, 2, 2, 2, 2, 2])
         sc["sent"] = stream
         if r == 0:      # late data around the deadline
             k = ch.choose("latek", len(stream))
@@ -161,6 +162,27 @@ def run_one(ch):
             sc["sent"] = stream[:k]
             sc["disconnect"] = how
             sc["case"] = f"disconnect/{name}/k={k}/{how}/delta={delta}"
+        elif r == 6:    # Titan upload that declares a large size and goes silent mid-body
+            size = ch.pick("bigsize", [8193, 70000, 10 << 20, 10 ** 9])
+            have = ch.pick("bighave", [0, 1, 100, 5000])
+            stream = f"titan://{HOST}/up/big.bin;size={size};mime=application/octet-stream".encode() \
+                + b"\r\n" + b"z" * have
+            name = f"titan-declared-{size}"
+            if ch.chance("bigmw", 0.3):
+                sc["mwdelay"] = 0.0
+            sc["script"] = [("send", stream), ("stall",)]
+            sc["sent"] = stream
+            sc["big_declared"] = True
+            sc["case"] = f"big-declared-stall/{size}/have={have}"
+        elif r == 7:    # the complete request as several TLS records that reach the server together
+            cuts = sorted({1 + ch.choose("rcut", len(stream) - 1) for _ in range(1 + ch.choose("rn", 3))})
+            if ch.chance("rcrlf", 0.5):
+                cuts = sorted(set(cuts) | {stream.find(b"\r\n")})
+            edges = [0] + [c for c in cuts if 0 < c < len(stream)] + [len(stream)]
+            sc["script"] = [("send", stream[a:b]) for a, b in zip(edges, edges[1:])] + [("stall",)]
+            sc["coalesce_first"] = ch.chance("rcoal", 0.5)
+            sc["records"] = len(edges) - 1
+            sc["case"] = f"records-in-one-flight/{name}/{edges[1:-1]}/{sc['coalesce_first']}"
         else:           # random ciphertext stall anywhere in the client's stream
             if ch.chance("stallmw", 0.4):
                 sc["mwdelay"] = ch.pick("stallmwd", [0.0, 0.05, 2.0])
@@ -195,7 +217,7 @@ def run_one(ch):
     # a share of the seeded Gemini-shaped runs goes through the whole start_server()
     # (its own create_server call, TLS contexts and backend selection)
     use_ss = phase == 1 and mode != "plain" and s in (0, 1) and sc["hdelay"] is None and \
-        sc["mwdelay"] is None and ch.chance("start_server", 0.5)
+        sc["mwdelay"] is None and not sc.get("big_declared") and ch.chance("start_server", 0.5)
     if use_ss:
         sc["case"] += "/start_server"
         hresp_wire = b"20 text/gemini\r\n# index\n" if s == 0 else None
@@ -233,7 +255,7 @@ def run_one(ch):
             else:
                 script.append(a)
         peer = RawPeer(net, ep, script, tls_ctx=sw.peer_tls_ctx(mode), polite_close=False,
-                       name="cli")
+                       coalesce_first=bool(sc.get("coalesce_first")), name="cli")
         out["peer"] = peer
         out["t0"] = t0
         await asyncio.sleep(horizon - 10.0)
@@ -383,6 +405,10 @@ def run_one(ch):
         res.stats["slow_middleware"] += 1
     if sc["case"].startswith("dribble"):
         res.stats["dribble"] += 1
+    if sc.get("big_declared"):
+        res.stats["stall_after_large_declared_size"] += 1
+    if sc.get("records"):
+        res.stats["request_as_several_records_in_one_flight"] += 1
     if use_ss:
         res.stats["via_start_server"] += 1
     res.stats["enumerated" if phase == 0 else "seeded"] += 1
